@@ -71,7 +71,11 @@ Definition zstep (key : bytes) (c : zcmd) (z : szset) : szset * reply :=
       if negb (key_ok key) then (z, RErr)
       else match rank_range (size_of z) start stop with
            | None => (z, RInt 0)
-           | Some (a, b) => let '(z', n) := remove_members (map snd (slice a b (zsorted z))) z in (z', RInt n)
+           | Some (a, b) =>
+               (* ZanRedisDB's batch limit (MAX_BATCH_NUM, the 5000 of user-guide item 6) also guards a rank
+                  removal that is not the whole set *)
+               if (max_batch_num <? b - a + 1) && (b - a + 1 <? size_of z) then (z, RErr)
+               else let '(z', n) := remove_members (map snd (slice a b (zsorted z))) z in (z', RInt n)
            end
   | ZCremrangebyscore lo hi =>
       match lo, hi with
